@@ -152,6 +152,26 @@ Record row := {
   r_arg : option (list proto)     (* explicit priority argument *)
 }.
 
+(* ------------------------------------------------------------------ FacadeAppleTV.connect *)
+
+(* the while loop of FacadeAppleTV.connect, seen through one interface and one target name.
+   One element of `added` is one SetupData in the order of add_protocol:
+     (protocol, what `await setup_data.connect()` returned, the instance it carries for the
+      interface - None if it has none).
+   A protocol that is already set up is ignored (`in self._protocol_handlers: continue`); the
+   instances are registered only `if await setup_data.connect()`; a SetupData whose connect()
+   returned False leaves the protocol un-handled, so a later SetupData for it is tried. *)
+Fixpoint connect_regs (added : list (proto * bool * option inst)) (handled : list proto)
+  : list (proto * inst) :=
+  match added with
+  | [] => []
+  | (p, ok, oi) :: rest =>
+      if existsb (proto_eqb p) handled then connect_regs rest handled
+      else if ok
+           then match oi with Some i => [(p, i)] | None => [] end ++ connect_regs rest (handled ++ [p])
+           else connect_regs rest handled
+  end.
+
 (* ------------------------------------------------------------------ FacadeAppleTV.takeover *)
 
 (* takeover list of every facade relayer *)
@@ -250,7 +270,7 @@ Definition opres_eqb (a b : opres) : bool :=
   | _, _ => false
   end.
 
-(* a registration given as an association list in the generated cases *)
+(* a registration given as an association list *)
 Fixpoint reg_of (l : list (proto * inst)) : registry :=
   fun p => match l with
            | [] => None
@@ -277,15 +297,18 @@ Definition check_register (c : list proto * list proto * proto * option (list pr
   let '(prios, regd, p, obs) := c in
   opt_beq (list_beq proto_eqb) (r_register prios regd p) obs.
 
-(* (2) one member of the real facade: row of the generated table, relayer priorities,
-       takeover list, gate, registration order, registration as seen for the member, observation *)
+(* (2) one member of the real facade after the real FacadeAppleTV.connect: row of the generated
+       table, takeover list, gate, the SetupData added (with the result of their connect() and the
+       instance as seen for the member), observation *)
 Definition check_facade (rows : list row) (prio_of : iface -> list proto)
-           (c : nat * list proto * bool * list proto * list (proto * inst) * callres) : bool :=
-  let '(n, take, gate, regd, reg, obs) := c in
+           (c : nat * list proto * bool * list (proto * bool * option inst) * callres) : bool :=
+  let '(n, take, gate, added, obs) := c in
+  let regs := connect_regs added [] in
   match nth_error rows n with
   | None => false
   | Some r =>
-      callres_eqb (facade_call (r_kind r) (prio_of (r_iface r)) (r_arg r) take gate regd (reg_of reg)) obs
+      callres_eqb (facade_call (r_kind r) (prio_of (r_iface r)) (r_arg r) take gate
+                               (map fst regs) (reg_of regs)) obs
   end.
 
 (* (3) a takeover/release history on the real FacadeAppleTV: ops, observed per-op results,
